@@ -4,7 +4,8 @@
 (* generated).  The file is a concatenation of runs:                                              *)
 (*   Reset [cfg, objs]            configuration + password facts, the plaintext document as an     *)
 (*                                abstract tree (strings / streams with their context)             *)
-(*   Call  [call, rel, res, tenc, nobj, same, items]   one public call and what was observed        *)
+(*   Call  [call, rel, pos, res, tenc, nobj, same, items]  one public call (or an Edit of the object  *)
+(*                                at position pos by the caller) and what was observed                *)
 (* The validator carries (i) the judge state of the declarative layer and judges every call with  *)
 (* Security!Judge (Restored / Hidden / Rejects / EitherPw / ViaFile) — only this can yield a        *)
 (* violation — and (ii) the impl-shaped symbolic state: every call is bound to the action of        *)
@@ -26,7 +27,7 @@ ObjOf(o) ==
       [] o.k = "arr"    -> [k |-> "arr", v |-> [i \in DOMAIN o.v |-> ObjOf(o.v[i])]]
       [] o.k = "dict"   -> [k |-> "dict", typ |-> o.typ, v |-> [i \in DOMAIN o.v |-> ObjOf(o.v[i])]]
       [] o.k = "stream" -> [k |-> "stream", typ |-> o.typ, crypt |-> o.crypt, d |-> [i \in DOMAIN o.d |-> ObjOf(o.d[i])],
-                            pl |-> Plain(o.pid, o.len)]
+                            pl |-> Plain(o.pid, o.len), mem |-> o.mem]   \* mem: member positions, see AttachMembers
       [] OTHER          -> [k |-> "other"]
 
 \* does the logged observation agree with the predicted one?  Items of 1..7 bytes may equal their
@@ -36,20 +37,20 @@ Agree(p, ev) ==
     /\ Len(p.items) = Len(ev.items)
     /\ \A i \in 1..Len(ev.items) :
           LET a == p.items[i] b == ev.items[i] IN
-          \/ b.otyp = "XRef"
+          \/ b.otyp \in Bookkeeping
           \/ b.present /\ (a.eq = b.eq \/ (b.len < 8 /\ b.len > 0 /\ ~a.eq))
 
 Init == l = 1 /\ cfg = [V |-> 0] /\ s = [none |-> TRUE] /\ j = J0 /\ synced = FALSE
 
 DoReset(r) ==
     /\ cfg' = r.cfg
-    /\ s' = S0([i \in DOMAIN r.objs |-> ObjOf(r.objs[i])])
+    /\ s' = S0(AttachMembers([i \in DOMAIN r.objs |-> ObjOf(r.objs[i])]))
     /\ j' = J0
     /\ synced' = (Len(Items(s'.objs)) = r.nitems)
     /\ PrintT(<<"VERDICT", ToJson([i |-> l, ok |-> TRUE, tags |-> {"ok-reset"}, drift |-> ~synced'])>>)
 
 DoCall(r) ==
-    LET c  == [call |-> r.call, rel |-> r.rel]
+    LET c  == [call |-> r.call, rel |-> r.rel, pos |-> r.pos]
         ev == [call |-> r.call, rel |-> r.rel, res |-> r.res, tenc |-> r.tenc, nobj |-> r.nobj, items |-> r.items, same |-> r.same]
         v  == Judge(cfg, j, ev)
         \* a password relation the harness could not decide (convention for characters without a PDFDocEncoding code):
